@@ -116,6 +116,18 @@ def run(rep, tier):
     from .common import rule_save_order
     rep.rule("B2-save-order", "in Textgrid.save the text is computed (and can raise) before the destination is opened for writing (shared with C13)")
     rule_save_order(rep, ["Textgrid.save"])
+    # 'the 1e-8 default threshold'
+    rep.rule("D-default-threshold", "the default of minimumIntervalLength in Textgrid.save and getTextgridAsStr is the constant the property names, 1e-8 (resolved through the imported module constant)")
+    for spec_ in ("Textgrid.save", "utilities.textgrid_io:getTextgridAsStr"):
+        f = idx.get(spec_)
+        rep.functions.add(f.qual)
+        node = f.defaults.get("minimumIntervalLength")
+        if node is None:
+            rep.refuted("D-default-threshold", f.short, "minimumIntervalLength", "the parameter has no default (the property's 'default threshold')", loc=f.loc)
+            continue
+        val = idx.const_value(f.module, node)
+        rep.check(isinstance(val, (int, float)) and not isinstance(val, bool) and float(val) == 1e-8, "D-default-threshold", f.short, "minimumIntervalLength = %s" % ast.unparse(node),
+                  ok="evaluates to 1e-8", bad="evaluates to %r, the property's default threshold is 1e-8" % (val,), loc=f.loc)
     # 'boundaries unchanged': every time is written exactly
     from . import textrules as R
     rep.rule("C-exact / W-doc", "boundaries are written exactly: numToStr is repr or the compared integer (tolerance <= 1e-14), and in the emitted text every time is such a numeral, free-standing and in its place (shared with C01/C02)")
